@@ -338,6 +338,7 @@ Proof.
       rewrite fan_all_dev, fan_all_host. cbn [upd dev host]. rewrite Hdh, fold_remove_self.
       repeat split; auto; intros; congruence.
     + (* Tick *) tinv_same H L.
+    + (* Cancel *) tinv_same H L.
 Qed.
 
 (* ------------------------------------------------------------------ invariant 2: the registries *)
@@ -537,6 +538,17 @@ Proof.
   - unfold wok. cbn [set_st w_st]. exact I.
 Qed.
 
+Lemma wok_cancel : forall s ws w x,
+  wok s x -> wok (upd s (ctl s) (c2h s) (h2c s) ws) (if w_id x =? w then on_cancel x else x).
+Proof.
+  intros s ws w x Hx.
+  assert (Hx' : wok (upd s (ctl s) (c2h s) (h2c s) ws) x).
+  { apply (wok_transfer s _ x); cbn [upd lost dev h2c c2h]; auto. }
+  destruct (w_id x =? w); [|exact Hx'].
+  unfold on_cancel. destruct (w_st x) eqn:Es; try (unfold wok; cbn [set_st w_st]; exact I).
+  exact Hx'.
+Qed.
+
 Lemma winv_step : forall tbl s o, tinv s -> winv s -> winv (step tbl s o).
 Proof.
   intros tbl s o HT H. pose proof HT as (Hdh & Hrep & _).
@@ -546,6 +558,7 @@ Proof.
     + eapply winv_map; [reflexivity| |exact H]. intros x _ Hx. cbn beta. now apply wok_resume.
     + eapply (winv_map s _ (on_tick (dev s))); [reflexivity| |exact H].
       intros x _ Hx. now apply wok_tick.
+    + eapply winv_map; [reflexivity| |exact H]. intros x _ Hx. cbn beta. now apply wok_cancel.
   - specialize (Hrep eq_refl).
     destruct o.
     + (* Establish *) destruct (mem h (ctl s)); [exact H|].
@@ -733,6 +746,8 @@ Proof.
     + (* Tick *)
       eapply (winv_map s _ (on_tick (dev s))); [reflexivity| |exact H].
       intros x _ Hx. now apply wok_tick.
+    + (* Cancel *)
+      eapply winv_map; [reflexivity| |exact H]. intros x _ Hx. cbn beta. now apply wok_cancel.
 Qed.
 
 (* ------------------------------------------------------------------ every history, every cut point *)
@@ -881,6 +896,23 @@ Proof.
   pose proof (no_waiter_left tbl ops Hq) as H. fold s in H.
   eapply Forall_impl; [|exact H]. intros x Hx. unfold live_waiter in Hx.
   rewrite Hd, Hh in Hx. cbn in Hx. now rewrite orb_false_r in Hx.
+Qed.
+
+(* --- the HCI command gate is free once everything is quiet, whatever was cancelled when *)
+Theorem gate_free_when_quiescent : forall tbl ops,
+  let s := run tbl ops init in quiescent s = true -> gate_busy s = false.
+Proof.
+  intros tbl ops s Hq.
+  pose proof (waiters_cut tbl ops) as Hw. fold s in Hw.
+  unfold quiescent in Hq.
+  destruct (c2h s) eqn:Ec; [|discriminate]. destruct (h2c s) eqn:Eh; [|discriminate].
+  unfold gate_busy. destruct (existsb holds_gate (waiters s)) eqn:E; [|reflexivity].
+  apply existsb_exists in E as (x & Hin & Hg).
+  pose proof (proj1 (Forall_forall _ _) Hw x Hin) as Hx.
+  unfold wok, resp_coming in Hx. rewrite ?Ec, ?Eh in Hx. unfold holds_gate in Hg.
+  destruct (w_st x); try discriminate.
+  - destruct (w_kind x); try discriminate. destruct Hx as (_ & [[]|[]]).
+  - destruct Hx as (_ & _ & [[]|[]]).
 Qed.
 
 (* --- end to end: the property, in terms of what the controller holds *)
